@@ -286,6 +286,11 @@ func c01ExitStatus(c *Check) {
 			}
 			return false
 		}, nil)
+		if !okv {
+			// the mapping lives in a helper: every status it returns is a non-zero
+			// constant or the code carried by the error, and at least one is the former
+			okv = statusHelperOK(p, ret.Results[0], 0)
+		}
 		c.Cond(okv, "EXIT-STATUS", fnName(main2)+"|error status defaults non-zero", p.pos(ret.Pos()),
 			"the status returned on the error path defaults to a non-zero constant (overridden only by the Exit code carried in the error)",
 			"the status returned on the error path has no non-zero default")
@@ -307,4 +312,49 @@ func c01ExitStatus(c *Check) {
 		})
 	}
 	c.Counts["exitf_sites_in_parse"] = n
+}
+
+// statusHelperOK: v is the result of a repository function (possibly through
+// further helpers) all of whose returns are a non-zero constant, a value that
+// derives from one (phi with the Exit code), or the Code field of an error, with
+// at least one non-zero constant among them.
+func statusHelperOK(p *Program, v ssa.Value, depth int) bool {
+	call, ok := v.(*ssa.Call)
+	if !ok || depth > 3 {
+		return false
+	}
+	h := normFn(p, call.Call.StaticCallee())
+	if h == nil || !isRepoFn(h) || len(h.Blocks) == 0 || h.Signature.Results().Len() != 1 {
+		return false
+	}
+	nonZero := false
+	for _, b := range h.Blocks {
+		ret, isRet := b.Instrs[len(b.Instrs)-1].(*ssa.Return)
+		if !isRet || b == h.Recover {
+			continue
+		}
+		vals, cell := returnValues(ret)
+		if cell[0] {
+			return false
+		}
+		r := vals[0]
+		switch {
+		case func() bool { k, ok := constInt(r); return ok && k != 0 }():
+			nonZero = true
+		case func() bool { k, ok := constInt(r); return ok && k == 0 }():
+			return false
+		case func() bool { _, fld, _, ok := loadedField(r); return ok && fld == "Code" }():
+		case func() bool {
+			f, ok := r.(*ssa.Field)
+			return ok && f.X.Type().Underlying().(*types.Struct).Field(f.Field).Name() == "Code"
+		}():
+		case derives(r, func(x ssa.Value) bool { k, ok := constInt(x); return ok && k != 0 }, nil):
+			nonZero = true
+		case statusHelperOK(p, r, depth+1):
+			nonZero = true
+		default:
+			return false
+		}
+	}
+	return nonZero
 }
